@@ -270,6 +270,26 @@ def check_case(ctx, obs, ens):
                 ctx.violation("crps:scale:%s:%s" % (sname, k), case,
                               "%s = %r, but %r (expected %r) after multiplying observations and members by %s" % (k, a, c, f * a, sname),
                               observed=c, expected=f * a)
+    # shift that makes one value EXACTLY equal to a number often used as a missing-value code (translation
+    # invariance: a finite observation or member is data whatever its value)
+    fin = [v for v in obs if not math.isnan(v)]
+    if fin:
+        for sname, target in (("obs=-9999", -9999.0), ("obs=-999", -999.0), ("member=-9999", -9999.0), ("obs=-99.9", -99.9)):
+            src = fin[0] if sname.startswith("obs") else ens[0][0]
+            sh = target - src
+            if (src + sh) != target or any((v + sh) - sh != v for v in fin + [w for row in ens for w in row]):
+                continue        # the shift would not be exact
+            try:
+                rs2 = call_impl([v + sh for v in obs], [[v + sh for v in row] for row in ens])[0]
+            except Exception as e:
+                ctx.violation("crps:raised:shift:%s" % sname, case, "call shifted so that %s raised %r" % (sname, e))
+                continue
+            ctx.count("relation.shift-to-sentinel")
+            for k, a, b in zip(COMPS, r, rs2):
+                if not close(b, a):
+                    ctx.violation("crps:shift:%s:%s" % (sname, k), case,
+                                  "%s = %r, but %r after adding %r to observations and members (%s)" % (k, a, b, sh, sname),
+                                  observed=b, expected=a)
     for k, a, b, c in zip(COMPS, r, rsft, rscl):
         if not close(b, a):
             ctx.violation("crps:shift:%s" % k, case, "%s = %r, but %r after adding 2.5 to observations and members" % (k, a, b),
